@@ -14,6 +14,28 @@ import (
 // Parser can parse lua statements or expressions
 type Parser struct {
 	scanner Scanner
+	depth   int // current nesting depth of statements and expressions
+}
+
+// maxNestingDepth is the maximum nesting depth of statements and expressions
+// (C Lua has the same limit, LUAI_MAXCCALLS).  The parser and the compilation
+// stages after it are recursive, so this bounds the amount of Go stack needed
+// to compile a chunk.
+const maxNestingDepth = 200
+
+// enterLevel is called on entry to the parsing functions through which all
+// recursion goes (Stat and ShortExp), leaveLevel on exit.
+func (p *Parser) enterLevel(t *token.Token) {
+	p.depth++
+	if p.depth > maxNestingDepth {
+		tok := *t
+		tok.Type = token.INVALID
+		panic(Error{Got: &tok, Expected: "chunk has too many syntax levels"})
+	}
+}
+
+func (p *Parser) leaveLevel() {
+	p.depth--
 }
 
 type Scanner interface {
@@ -59,7 +81,7 @@ func ParseExp(scanner Scanner) (exp ast.ExpNode, err error) {
 			}
 		}
 	}()
-	parser := &Parser{scanner}
+	parser := &Parser{scanner: scanner}
 	var t *token.Token
 	exp, t = parser.Exp(parser.Scan())
 	expectType(t, token.EOF, "<eof>")
@@ -79,7 +101,7 @@ func ParseChunk(scanner Scanner) (stat ast.BlockStat, err error) {
 			}
 		}
 	}()
-	parser := &Parser{scanner}
+	parser := &Parser{scanner: scanner}
 	var t *token.Token
 	stat, t = parser.Block(parser.Scan())
 	expectType(t, token.EOF, "<eof>")
@@ -97,6 +119,8 @@ func (p *Parser) Scan() *token.Token {
 
 // Stat parses any statement.
 func (p *Parser) Stat(t *token.Token) (ast.Stat, *token.Token) {
+	p.enterLevel(t)
+	defer p.leaveLevel()
 	switch t.Type {
 	case token.SgSemicolon:
 		return ast.NewEmptyStat(t), p.Scan()
@@ -357,6 +381,8 @@ func (p *Parser) Exp(t *token.Token) (ast.ExpNode, *token.Token) {
 // prefix expression or a power operation (right associatively composed). In
 // other words, any expression that doesn't contain a binary operator.
 func (p *Parser) ShortExp(t *token.Token) (ast.ExpNode, *token.Token) {
+	p.enterLevel(t)
+	defer p.leaveLevel()
 	var exp ast.ExpNode
 	switch t.Type {
 	case token.KwNil:
